@@ -236,7 +236,8 @@ static std::string run_case(std::vector<std::string> t, unsigned serial) {
     std::string r;
     try {
       const std::string& k = op[0];
-      if (k == "C") r = op_chunk(c, false, op);
+      if ((k == "Q" || k == "D") && total > (uint64_t(1) << 26)) r = "skipped-large";   // same rule as the model driver
+      else if (k == "C") r = op_chunk(c, false, op);
       else if (k == "I") r = op_chunk(c, true, op);
       else if (k == "M") {
         try { c.fl->mark_completed((uint32_t)std::stoull(op.at(1))); r = "ok"; }
